@@ -49,13 +49,13 @@ package util
 //@   props C07 C12
 //@   modifies heap(alloc), ghost fs.seq, ghost fs.appends, ghost fs.last_append_opened, ghost eff.fs
 //@   ensures [C07 opened_for_append] fs.appends == old(fs.appends) + 1 && fs.last_append_opened == file && fs.seq == old(fs.seq) + 1
-//@   ensures err == nil ==> f != nil
+//@   ensures [C12 opened_file_has_the_given_name] err == nil ==> (f != nil && !wasAllocated(f) && file_name(f) == file)
 
 //@ fn createFile(file) (f, err)
 //@   props C07 C12
 //@   modifies heap(alloc), ghost fs.seq, ghost fs.creates, ghost fs.last_created, ghost eff.fs
 //@   ensures fs.creates == old(fs.creates) + 1 && fs.last_created == file && fs.seq == old(fs.seq) + 1
-//@   ensures err == nil ==> f != nil
+//@   ensures [C12 opened_file_has_the_given_name] err == nil ==> (f != nil && !wasAllocated(f) && file_name(f) == file)
 
 //@ fn OpenOrCreateFile(file) (f, err)
 //@   props C07 C12
@@ -65,15 +65,33 @@ package util
 //@   ensures [C07 existing_file_is_appended_to_never_truncated] obs.exists ==>
 //@        (fs.creates == old(fs.creates) && fs.appends == old(fs.appends) + 1 && fs.last_append_opened == file)
 //@   ensures [C07 missing_file_is_created] !obs.exists ==> (fs.creates == old(fs.creates) + 1 && fs.last_created == file && fs.appends == old(fs.appends))
-//@   ensures err == nil ==> f != nil
+//@   ensures [C12 opened_file_has_the_given_name] err == nil ==> (f != nil && !wasAllocated(f) && file_name(f) == file)
 
 //@ ufunc trunc_string(s string, n int) string
+//@ ufunc valid_filename(s string) string
+//@ fn ValidFilename(str) (r)
+//@   props C12
+//@   trusted
+//@   noeffect
+//@   ensures r == valid_filename(str)
+
 //@ fn TruncString(val, max) (r)
 //@   props C06
 //@   requires max >= 0
 //@   ensures [C06 truncation] r == ite(len(val) > max, substr(val, 0, max), val)
 
+//@ ufunc add_yaml(file string) string
 //@ fn AddYamlExtension(file) (r)
 //@   props C18
 //@   trusted
-//@   pure
+//@   noeffect
+//@   ensures r == add_yaml(file)
+
+//@ fn SplitCommand(cmdStr) (cmd, args)
+//@   props C13
+//@   trusted
+//@   modifies heap(alloc)
+//@ fn SplitCommandWithParse(cmdStr) (cmd, args)
+//@   props C11
+//@   trusted
+//@   modifies heap(alloc), ghost eff.exec
